@@ -47,8 +47,14 @@ func (t PredefinedTopics) GetTopicID(clientID, topic string) (uint16, bool) {
 		}
 	}
 	if tAll, ok := t["*"]; ok {
+		tClient := t[clientID]
 		for topicID, topicName := range tAll {
 			if topicName == topic {
+				// A client-specific topic with the same ID takes precedence
+				// (see GetTopicName) => this ID does not mean "topic" for the client.
+				if _, shadowed := tClient[topicID]; shadowed {
+					continue
+				}
 				return topicID, true
 			}
 		}
